@@ -116,7 +116,7 @@ def WFVal (e : Endian) : Nat → Nat → Val → Ty → Prop
       (encodeList e (off + padLen off 4 + 4 + padLen (off + padLen off 4 + 4) et.align) vs).length ≤ MAX_ARRAY_LENGTH ∧
       WFElems e (d + 1) (off + padLen off 4 + 4 + padLen (off + padLen off 4 + 4) et.align) vs et
   | d, off, .struct vs, .struct ts =>
-    d + 1 ≤ MAX_VALUE_DEPTH ∧ WFFields e (d + 1) (off + padLen off 8) vs ts
+    ts ≠ [] ∧ d + 1 ≤ MAX_VALUE_DEPTH ∧ WFFields e (d + 1) (off + padLen off 8) vs ts
   | d, off, .dict k vt es, .dict k' vt' =>
     k = k' ∧ vt = vt' ∧
       (encodeEntries e (off + padLen off 4 + 4 + padLen (off + padLen off 4 + 4) 8) es).length ≤ MAX_ARRAY_LENGTH ∧
